@@ -73,7 +73,10 @@ def run(ctx):
     ex = absint.Explorer(prog, effects=eff)
     # the table elements are pointers into one buffer: events at offsets 100 < 200
     for (c1, c2, p1, p2, want) in ((5, 9, 100, 200, -1), (9, 5, 100, 200, 1), (5, 9, 200, 100, -1), (9, 5, 200, 100, 1),
-                                   (7, 7, 100, 200, -1), (7, 7, 200, 100, 1), (7, 7, 100, 100, 0)):
+                                   (7, 7, 100, 200, -1), (7, 7, 200, 100, 1), (7, 7, 100, 100, 0),
+                                   # clocks are 64-bit nanoseconds: gaps of 2^31 and more (a few seconds) must keep their sign
+                                   (5, 5 + 2 ** 31, 100, 200, -1), (5 + 2 ** 31, 5, 100, 200, 1), (5, 5 + 2 ** 32, 200, 100, -1),
+                                   (3 * 2 ** 32 + 1, 7, 200, 100, 1), (0, 2 ** 62, 100, 200, -1)):
         store = {("TAB", (0,)): PTR("BUF", (p1,)), ("TAB", (1,)): PTR("BUF", (p2,)),
                  ("BUF", (p1,) + HD): INT(c1), ("BUF", (p2,) + HD): INT(c2)}
         outs = ex.run(ce, [PTR("TAB", (0,)), PTR("TAB", (1,))], store)
@@ -270,7 +273,7 @@ def run(ctx):
     FLG = HDR + F("ovni_ev_header", "flags")
     ra = prog.fn("ring_add", SC)
     esp5 = prog.fn("execute_sort_plan", SC)
-    EVSZ = 12       # events without payload
+    EVSZ = prog.records["ovni_ev_header"]["size"]       # events without payload
 
     def plan_case(clocks, rstart, rsize):
         n = len(clocks)
